@@ -1,6 +1,117 @@
 import YaegiVerif.Common.Sexp
-/- Line-protocol front end for C06 (glue). Placeholder until the property's model exists. -/
+import YaegiVerif.Model.Unwind
+import YaegiVerif.Spec.GoDefer
+import YaegiVerif.Generated.C06
+import YaegiVerif.Proofs.C06Dom
+/- Line-protocol front end for C06 (glue, not a proof obligation).
+     unwind FUEL BODY      → y=<outcome> g=<outcome> d=<1 iff BODY is in the domain of the refinement theorem>
+   BODY  = (STMT …)
+   STMT  = (print s) | (printarg) | (call BODY ARG show) | (defer BODY ARG) | (deferbin s ARG) | (deferdel t)
+         | (probe t) | (panic VAL) | (recover show) | (repanic) | (setres n) | (setouter n)
+   ARG   = (lit n) | param | res
+   VAL   = (str s) | (int n) | (err s) | (fault kind)
+   outcome = <status>~<reusable>~<line>|<line>|…   (spaces inside a line are written `_`) -/
 namespace YaegiVerif.Driver.C06
-open YaegiVerif
-def handle (_args : List Sexp) : String := "unimplemented"
+open YaegiVerif YaegiVerif.Unwind
+
+def parseFault : String → Option FaultKind
+  | "nilMap" => some .nilMap | "index" => some .index | "sliceBounds" => some .sliceBounds
+  | "nilDeref" => some .nilDeref | "divZero" => some .divZero | "typeAssert" => some .typeAssert
+  | "closeClosed" => some .closeClosed | _ => none
+
+def showFault : FaultKind → String
+  | .nilMap => "nilMap" | .index => "index" | .sliceBounds => "sliceBounds" | .nilDeref => "nilDeref"
+  | .divZero => "divZero" | .typeAssert => "typeAssert" | .closeClosed => "closeClosed"
+
+def parseVal : Sexp → Option Val
+  | .list [.atom "str", .atom s] => some (.str s)
+  | .list [.atom "int", n] => n.int?.map .int
+  | .list [.atom "err", .atom s] => some (.err s)
+  | .list [.atom "fault", .atom k] => (parseFault k).map .fault
+  | _ => none
+
+def parseArg : Sexp → Option Arg
+  | .list [.atom "lit", n] => n.int?.map .lit
+  | .atom "param" => some .param
+  | .atom "res" => some .res
+  | _ => none
+
+mutual
+  partial def parseBody (s : Sexp) : Option Code :=
+    match s with
+    | .list xs => parseStmts xs
+    | _ => none
+  partial def parseStmts (xs : List Sexp) : Option Code :=
+    match xs with
+    | [] => some .done
+    | x :: rest => do
+      let k ← parseStmts rest
+      match x with
+      | .list [.atom "print", .atom s] => some (.print s k)
+      | .list [.atom "printarg"] => some (.printArg k)
+      | .list [.atom "call", b, a, sh] => do
+        let f ← parseBody b; let a ← parseArg a; let sh ← sh.bool?
+        some (.call f a sh k)
+      | .list [.atom "defer", b, a] => do
+        let f ← parseBody b; let a ← parseArg a
+        some (.defer f a k)
+      | .list [.atom "deferbin", .atom s, a] => do
+        let a ← parseArg a
+        some (.deferBin s a k)
+      | .list [.atom "deferdel", t] => do
+        let t ← t.nat?
+        some (.deferDel t k)
+      | .list [.atom "probe", t] => do
+        let t ← t.nat?
+        some (.probe t k)
+      | .list [.atom "panic", v] => do
+        let v ← parseVal v
+        some (.panic v k)
+      | .list [.atom "recover", sh] => do
+        let sh ← sh.bool?
+        some (.recover sh k)
+      | .list [.atom "repanic"] => some (.repanic k)
+      | .list [.atom "setres", n] => do
+        let n ← n.int?
+        some (.setRes n k)
+      | .list [.atom "setouter", n] => do
+        let n ← n.int?
+        some (.setOuter n k)
+      | _ => none
+end
+
+/-- how fmt prints the value; `re`: a reflect.Value inside a reflect.Value prints through Value.String() -/
+def showVal : Val → String
+  | .str s => s | .int n => toString n | .err s => s | .fault k => "fault:" ++ showFault k
+  | .re (.str s) => s
+  | .re (.int _) => "<int_Value>"
+  | .re (.err _) => "<error_Value>"
+  | .re (.fault k) => "fault:" ++ showFault k
+  | .re (.re _) => "<interface_{}_Value>"
+
+def showEvent : Event → String
+  | .print s => s
+  | .arg n => "a_" ++ toString n
+  | .ret n => "ret_" ++ toString n
+  | .recd none => "rec_<nil>"
+  | .recd (some v) => "rec_" ++ showVal v
+  | .bin s n => s ++ "_" ++ toString n
+  | .probe t p => "probe_" ++ toString t ++ "_" ++ toString p
+
+def showStatus : Status → String
+  | .ok => "ok" | .panicErr (some v) => "panic:" ++ showVal v | .panicErr none => "panic:?"
+  | .crash => "crash" | .fuel => "fuel"
+
+def showOutcome (o : Outcome) : String :=
+  showStatus o.status ++ "~" ++ (if o.reusable then "1" else "0") ++ "~" ++ "|".intercalate (o.out.map showEvent)
+
+def handle (args : List Sexp) : String :=
+  match args with
+  | [.atom "unwind", fuel, body] =>
+    (match fuel.nat?, parseBody body with
+     | some n, some c =>
+       s!"y={showOutcome (runY Generated.C06.facts n c)} g={showOutcome (Spec.run n c)} d={if Dom c then "1" else "0"}"
+     | _, _ => "bad-op")
+  | _ => "bad-op"
+
 end YaegiVerif.Driver.C06
